@@ -1142,8 +1142,10 @@ class AirTouch4(pyairtouch.api.AirTouch):
 
 
 async def _notify_subscribers(callbacks: Iterable[Awaitable[Any]]) -> None:
-    for coro in asyncio.as_completed(callbacks):
-        try:
-            _ = await coro
-        except Exception:
-            _LOGGER.exception("Exception from subscriber")
+    # gather() cancels the callbacks that are still running when the caller is
+    # cancelled (e.g. when the socket is closed); as_completed() would leave
+    # them running as orphaned tasks.
+    results = await asyncio.gather(*callbacks, return_exceptions=True)
+    for result in results:
+        if isinstance(result, Exception):
+            _LOGGER.error("Exception from subscriber", exc_info=result)
